@@ -76,7 +76,7 @@ func coinsWithin(a, b sdk.Coins, tol int64) (string, bool) {
 }
 
 func runC08(c *vk.Ctx) {
-	c.R.Rule = "cases = the common concentrated-liquidity histories (swap-heavy, all uptimes in half of them, both sides of the accumulator migration) in which, at a seed-chosen point, four probe positions are planted in one block: twins A and B (identical range and tokens, different owners), a k× position (k ∈ 2..9) and a position in a range the price has not visited; the random operations leave the probes alone. After every operation: twins' claimable spread rewards and incentives must be identical; the k× position's within the truncation allowance of the liquidity ratio; the never-in-range position's zero; Σ claimed + Σ claimable vs fees paid in + incentives funded (never above, short only by the computed dust bound); incentives of positions younger than every incentive record's uptime zero. Around every claim / add / partial withdraw / transfer of any other position: claimed + still-claimable is preserved within one unit per denom per accumulator. distinct_nontrivial counts distinct (operation, probes planted?, twins earning spread?, twins earning incentives?, far still untouched?, preservation outcome) tuples."
+	c.R.Rule = "cases = the common concentrated-liquidity histories (swap-heavy, all uptimes in half of them, both sides of the accumulator migration) in which, at a seed-chosen point, four probe positions are planted in one block: twins A and B (identical range and tokens, different owners), a k× position (k ∈ 2..9) and a position in a range the price has not visited; the random operations leave the probes alone. After every operation: twins' claimable spread rewards and incentives must be identical; the k× position's within the truncation allowance of the liquidity ratio; the never-in-range position's zero; Σ claimed + Σ claimable vs fees paid in + incentives funded (never above, short only by the computed dust bound); incentives of positions younger than every incentive record's uptime zero. Around every claim / add / partial withdraw / transfer of any other position: claimed + still-claimable is preserved within one unit per denom per accumulator. Emission per incentive record: never more than rate x time with active liquidity, and — once the pool is synchronised to now on a discarded branch — at least rate x (time with at least one unit of active liquidity since the record's start) or everything it had (not asserted after governance has changed the authorised uptimes). distinct_nontrivial counts distinct (operation, probes planted?, twins earning spread?, twins earning incentives?, far still untouched?, preservation outcome) tuples."
 	nHist := c.N(800, 6400)
 	opsPer := c.N(50, 150)
 	var s *c08State
@@ -425,6 +425,7 @@ func c08EmissionBound(c *vk.Ctx, w *clWorld, op string) bool {
 	// changes it synchronises the accumulators first), and nothing is emitted while it is zero
 	if w.liquidTime == nil {
 		w.liquidTime = map[uint64]time.Duration{}
+		w.liquidAfterStart = map[uint64]time.Duration{}
 		w.incDust = map[string]*big.Rat{}
 	}
 	liqNow := w.pool().GetLiquidity()
@@ -437,9 +438,46 @@ func c08EmissionBound(c *vk.Ctx, w *clWorld, op string) bool {
 			if now.After(from) {
 				w.liquidTime[id] += now.Sub(from)
 			}
+			if in.start.After(from) {
+				from = in.start
+			}
+			// the module emits only while the active liquidity is at least one whole unit
+			if now.After(from) && w.prevLiquidity.GTE(sdkmath.LegacyOneDec()) {
+				w.liquidAfterStart[id] += now.Sub(from)
+			}
 		}
 	}
 	w.prevCheckTime, w.prevLiquidity = now, liqNow
+	// lower bound ("incentives emitted over time"): once the pool is synchronised to now — done here on a discarded
+	// branch — a record has emitted at least rate x (time with at least one unit of active liquidity since its start), or all it had.
+	// Not asserted once governance has changed the authorised uptimes (records of a de-authorised uptime rest).
+	if !w.uptimeGov && len(w.pos) > 0 {
+		fctx := w.ch.Fork()
+		ck := w.ch.App.ConcentratedLiquidityKeeper
+		if err := ck.UpdatePoolUptimeAccumulatorsToNow(fctx, w.poolID); err == nil {
+			if frecs, err := ck.GetAllIncentiveRecordsForPool(fctx, w.poolID); err == nil {
+				for _, rec := range frecs {
+					in, ok := w.incents[rec.IncentiveId]
+					lt := w.liquidAfterStart[rec.IncentiveId]
+					if !ok || lt <= 0 {
+						continue
+					}
+					c.Eval(1)
+					emitted := sdkmath.LegacyNewDecFromInt(in.amt).Sub(rec.IncentiveRecordBody.RemainingCoin.Amount)
+					want := in.rate.MulInt64(int64(lt)).QuoInt64(1_000_000_000)
+					if full := sdkmath.LegacyNewDecFromInt(in.amt); want.GT(full) {
+						want = full
+					}
+					// per synchronisation the emitted amount is a truncated 18-decimal product: relative 1e-9 and two units cover it
+					floor := want.Mul(sdkmath.LegacyMustNewDecFromStr("0.999999999")).Sub(sdkmath.LegacyNewDec(2))
+					if emitted.LT(floor) {
+						c.Violate("C08.not_emitted", map[string]any{"op": op}, "after %s: incentive record %d (%s%s at %s/s, started %s) has emitted only %s once the pool is synchronised to now, although the pool has had active liquidity for %s since the record started: rate x time = %s", op, rec.IncentiveId, in.amt, in.denom, in.rate, in.start, emitted, lt, want)
+						return false
+					}
+				}
+			}
+		}
+	}
 	sumRemaining := sdk.NewDecCoins()
 	for _, rec := range recs {
 		in, ok := w.incents[rec.IncentiveId]
